@@ -110,7 +110,7 @@ theorem applyFilter_inv (P : Prims) {f : FName} {v : Val} {args : List Val} {r :
   -- split
   case h_20 =>
     repeat' (split at h)
-    all_goals (simp only [Except.ok.injEq] at h; subst h; intro x hx)
+    all_goals first | (cases h; done) | (simp only [Except.ok.injEq] at h; subst h; intro x hx)
     all_goals first
       | (cases hx; done)
       | (obtain ⟨c, _, rfl⟩ := List.mem_map.mp hx; exact inv_unsafe _)
